@@ -88,7 +88,14 @@ func genC10(t *rapid.T) *C10Case {
 		consts = append(consts, name)
 	}
 	nscripts := rapid.IntRange(1, 2).Draw(t, "nscripts")
+	late := nscripts == 2 && rapid.IntRange(0, 2).Draw(t, "lateconst") == 0
+	if late {
+		consts = append(consts, "LATE_CONST") // defined between the scripts: a plain identifier in the first, a constant in the second
+	}
 	for s := 0; s < nscripts; s++ {
+		if late && s == 1 {
+			f.Tops = append(f.Tops, &Top{K: "const", Const: &Const{Name: "LATE_CONST", Val: []string{"42"}}})
+		}
 		sc := &Script{Name: fmt.Sprintf("Scr%c", 'A'+s), Body: &Block{Stmts: []*Stmt{}}}
 		n := rapid.IntRange(1, 8).Draw(t, "ncmds")
 		for i := 0; i < n; i++ {
@@ -154,10 +161,21 @@ func checkC10(c *C10Case) *Violation {
 	if res.Err != nil {
 		return viol("rejected", "a well-formed command sequence was rejected: %v\n--- source\n%s", res.Err, src)
 	}
-	consts := map[string]string{}
-	for _, t := range c.File.Tops {
-		if t.K == "const" {
-			consts[t.Const.Name] = joinToks(t.Const.Val)
+	// a constant applies to the statements written after its definition
+	constsAt := map[string]map[string]string{}
+	{
+		cur := map[string]string{}
+		for _, t := range c.File.Tops {
+			if t.K == "const" {
+				cur[t.Const.Name] = joinToks(t.Const.Val)
+			}
+			if t.K == "script" {
+				snap := map[string]string{}
+				for k, v := range cur {
+					snap[k] = v
+				}
+				constsAt[t.Script.Name] = snap
+			}
 		}
 	}
 	resolved, rok := Resolve(c.File, c.Switches)
@@ -168,6 +186,7 @@ func checkC10(c *C10Case) *Violation {
 	a := ParseAsm(res.Out)
 	nt := false
 	for _, sc := range resolved.Scripts() {
+		consts := constsAt[sc.Name]
 		var want []string
 		for _, s := range sc.Body.Stmts {
 			switch s.K {
